@@ -611,6 +611,7 @@ where
         // Determine indentation:
         let mut spaces: u32 = 0;
         let mut tabs: u32 = 0;
+        let mut tab_after_spaces = None;
         loop {
             match self.window[0] {
                 Some(' ') => {
@@ -629,14 +630,14 @@ where
                     spaces += 1;
                 }
                 Some('\t') => {
-                    if spaces != 0 {
+                    if spaces != 0 && tab_after_spaces.is_none() {
                         // Don't allow tabs after spaces as part of indentation.
                         // This is technically stricter than python3 but spaces before
                         // tabs is even more insane than mixing spaces and tabs.
-                        return Err(LexicalError {
-                            error: LexicalErrorType::TabsAfterSpaces,
-                            location: self.get_pos(),
-                        });
+                        // Only a line that carries a statement has an indentation, so
+                        // the error is raised once it is clear this is not a blank or
+                        // comment-only line.
+                        tab_after_spaces = Some(self.get_pos());
                     }
                     self.next_char();
                     tabs += 1;
@@ -645,6 +646,7 @@ where
                     self.lex_and_emit_comment()?;
                     spaces = 0;
                     tabs = 0;
+                    tab_after_spaces = None;
                 }
                 Some('\x0C') => {
                     // Form feed character!
@@ -652,6 +654,7 @@ where
                     self.next_char();
                     spaces = 0;
                     tabs = 0;
+                    tab_after_spaces = None;
                 }
                 Some('\n' | '\r') => {
                     // Empty line!
@@ -664,6 +667,7 @@ where
                     self.emit((Tok::NonLogicalNewline, TextRange::new(tok_start, tok_end)));
                     spaces = 0;
                     tabs = 0;
+                    tab_after_spaces = None;
                 }
                 None => {
                     spaces = 0;
@@ -671,6 +675,12 @@ where
                     break;
                 }
                 _ => {
+                    if let Some(location) = tab_after_spaces {
+                        return Err(LexicalError {
+                            error: LexicalErrorType::TabsAfterSpaces,
+                            location,
+                        });
+                    }
                     self.at_begin_of_line = false;
                     break;
                 }
